@@ -1267,6 +1267,15 @@ impl Runner {
             return Fed::Dropped;
         }
         // 3. the implementation
+        *CURRENT.lock().unwrap() = Some((
+            std::time::Instant::now(),
+            {
+                let mut prog = run.accepted.clone();
+                prog.push(input.clone());
+                format!("case {}", sx_program(&prog))
+            },
+            src.clone(),
+        ));
         let printed = Arc::new(Mutex::new(Vec::<String>::new()));
         let p2 = printed.clone();
         let mut settings = InterpreterSettings { print_fn: Box::new(move |m| p2.lock().unwrap().push(m.to_string())) };
@@ -1284,6 +1293,7 @@ impl Runner {
             Ok(o) => o,
             Err(p) => ImplOutcome::Panic(p),
         };
+        *CURRENT.lock().unwrap() = None;
         let out: Vec<String> = printed.lock().unwrap().clone();
         let panicked = matches!(outcome, ImplOutcome::Panic(_));
         // after a panic the context is not looked at any more: the model keeps the previous state
@@ -2327,6 +2337,12 @@ fn report_failures(out: &mut Out, inputs: &[Input], run: &CaseRun) {
             continue;
         }
         seen.push(key.clone());
+        if out.oracle_failures >= 25 {
+            // enough minimised examples: report the rest as they are
+            let src: Vec<String> = inputs.iter().map(|i| render_input(i).replace('\n', " ⏎ ")).collect();
+            out.oracle_fail(key, &format!("case {}", sx_program(inputs)), &format!("{} [program: {}]", what, src.join(" ;; ")));
+            continue;
+        }
         // shrink: drop statements / inputs while the same kind of failure remains
         let fl = flatten(inputs);
         let small = shrink_seq(&fl, |c| run_case(&regroup(c)).failures.iter().any(|(k, _)| k == key));
@@ -2491,8 +2507,39 @@ fn generate_case(rng: &mut Rng, out: &mut Out) {
     report_failures(out, &offered, &run);
 }
 
+/// What the implementation is working on right now (for the watchdog).
+static CURRENT: Mutex<Option<(std::time::Instant, String, String)>> = Mutex::new(None);
+
+/// The implementation has no step limit: a defect that makes compiled code loop would hang the whole check. A
+/// watchdog thread reports the input as a failure of the property (key `hang`) and ends the process.
+fn start_watchdog(dir: std::path::PathBuf) {
+    std::thread::spawn(move || loop {
+        std::thread::sleep(std::time::Duration::from_millis(250));
+        let cur = CURRENT.lock().unwrap().clone();
+        if let Some((t0, case, src)) = cur {
+            if t0.elapsed().as_secs() >= 20 {
+                use std::io::Write;
+                if let Ok(mut f) = std::fs::OpenOptions::new().append(true).create(true).open(dir.join("oracle.jsonl")) {
+                    let _ = writeln!(
+                        f,
+                        "{{\"key\":\"hang\",\"input\":{},\"what\":{}}}",
+                        json_str(&case),
+                        json_str(&format!("the implementation did not finish `{}` within 20 s", src.replace('\n', " ⏎ ")))
+                    );
+                }
+                let _ = std::fs::write(
+                    dir.join("stats.json"),
+                    "{\n  \"evaluations\": 0,\n  \"distinct_nontrivial\": 0,\n  \"lines\": 0,\n  \"oracle_failures\": 1,\n  \"rule\": \"aborted by the watchdog\",\n  \"samples\": [],\n  \"extra\": {},\n  \"histogram\": {\"aborted_by_watchdog\": 1}\n}\n",
+                );
+                std::process::exit(0);
+            }
+        }
+    });
+}
+
 fn main() {
     let args = Args::parse();
+    start_watchdog(args.out.clone());
     let mut out = Out::new(&args);
     out.rule = "sessions of 1-3 inputs (1-6 statements each) of generated well-typed programs: let (with aliases), fn with 0-3 parameters and 0-3 where-variables, recursion on a number or a list, struct definitions, expression statements, print, assert; expressions over scalars, booleans, strings with interpolation, structs, lists, function values, `|>`, `ans`; names from small pools so that shadowing occurs at every level; an input that ends in a run-time error is rolled back and the session goes on. Inputs the front end rejects or whose expected value needs a number that is not an integer below 2^53 to be shown are dropped. distinct = S-expression of the accepted program; non-trivial = at least two statements besides the preamble and at least one call or conditional".into();
 
